@@ -356,6 +356,179 @@ fn cmd_randwalk(args: &[String]) {
     }
 }
 
+
+// ---------------------------------------------------------------------------------------------
+// FEN / evaluation / UCI parser / search
+
+/// full state of a board as JSON (used by the `fen` command and the guarded `verifdump` UCI command)
+pub fn dump_board(b: &Board) -> String {
+    enc_state_k(b)
+}
+
+/// fen: stdin lines of FEN -> state JSON, or {"panic":true}
+fn cmd_fen() {
+    let mut o = out();
+    for line in std::io::stdin().lock().lines() {
+        let line = line.unwrap();
+        let r = catch_unwind(AssertUnwindSafe(|| {
+            let b = Board::from_fen(&line);
+            dump_board(&b)
+        }));
+        match r {
+            Ok(s) => writeln!(o, "{s}").unwrap(),
+            Err(_) => writeln!(o, "{{\"panic\":true}}").unwrap(),
+        }
+    }
+}
+
+/// eval: stdin lines of FEN -> evaluation from the mover's point of view
+fn cmd_eval() {
+    let mut o = out();
+    for line in std::io::stdin().lock().lines() {
+        let line = line.unwrap();
+        let r = catch_unwind(AssertUnwindSafe(|| {
+            let mut b = Board::from_fen(&line);
+            i64::from(SimpleEvaluator.evaluate(&mut b))
+        }));
+        match r {
+            Ok(v) => writeln!(o, "{v}").unwrap(),
+            Err(_) => writeln!(o, "PANIC").unwrap(),
+        }
+    }
+}
+
+/// parse: stdin lines -> "OK <Debug of the command>" | "ERR <message>" | "PANIC"
+fn cmd_parse() {
+    let mut o = out();
+    for line in std::io::stdin().lock().lines() {
+        let line = line.unwrap();
+        let r = catch_unwind(AssertUnwindSafe(|| {
+            let trimmed = line.trim();
+            let fields: Vec<&str> = trimmed.split_whitespace().collect();
+            crate::uci::verif_parse(&fields)
+        }));
+        match r {
+            Ok(Ok(s)) => writeln!(o, "OK {s}").unwrap(),
+            Ok(Err(e)) => writeln!(o, "ERR {e}").unwrap(),
+            Err(_) => writeln!(o, "PANIC").unwrap(),
+        }
+    }
+}
+
+/// search: stdin lines "FEN | moves | spec;spec;..." with spec = d<depth>[n<nodes>][x] (x = cache
+/// switched off).  The cache is emptied at the start of every line, not between the specs of a line.
+/// Output: the engine's own info/bestmove lines between "BEGIN k" and "END k", plus one
+/// "RESULT {json}" line per spec.
+fn cmd_search() {
+    use crate::board::transposition_table::TRANSPOSITION_TABLE;
+    use crate::search::limits::SearchLimits;
+    use crate::search::Search;
+    let stdin = std::io::stdin();
+    let mut k = 0usize;
+    for line in stdin.lock().lines() {
+        let line = line.unwrap();
+        if line.trim().is_empty() {
+            continue;
+        }
+        let parts: Vec<&str> = line.split('|').collect();
+        let fen = parts[0].trim().to_string();
+        let moves = parts.get(1).map_or("", |s| s.trim()).to_string();
+        let specs = parts.get(2).map_or("d1", |s| s.trim()).to_string();
+        println!("BEGIN {k}");
+        TRANSPOSITION_TABLE.write().unwrap().clear();
+        let setup = catch_unwind(AssertUnwindSafe(|| {
+            let mut b = Board::from_fen(&fen);
+            for m in moves.split_whitespace() {
+                let p = b.find_move(m).expect("illegal move in search case");
+                b.make_move(p);
+            }
+            b
+        }));
+        let Ok(board) = setup else {
+            println!("RESULT {{\"panic\":true,\"where\":\"setup\"}}");
+            println!("END {k}");
+            k += 1;
+            continue;
+        };
+        for spec in specs.split(';') {
+            let spec = spec.trim();
+            if spec.is_empty() {
+                continue;
+            }
+            let mut depth: Option<u8> = None;
+            let mut nodes: Option<u64> = None;
+            let mut limit_depth = false;
+            let mut off = false;
+            let mut cur = String::new();
+            let mut mode = ' ';
+            let flush = |mode: char, cur: &str, depth: &mut Option<u8>, nodes: &mut Option<u64>| {
+                if mode == 'd' {
+                    *depth = cur.parse().ok();
+                } else if mode == 'n' {
+                    *nodes = cur.parse().ok();
+                }
+            };
+            for ch in spec.chars() {
+                if ch.is_ascii_digit() {
+                    cur.push(ch);
+                } else {
+                    flush(mode, &cur, &mut depth, &mut nodes);
+                    cur.clear();
+                    mode = ch;
+                    if ch == 'x' {
+                        off = true;
+                    }
+                    if ch == 'l' {
+                        limit_depth = true;
+                    }
+                }
+            }
+            flush(mode, &cur, &mut depth, &mut nodes);
+            crate::search::verif::CACHE_OFF.store(off, std::sync::atomic::Ordering::Relaxed);
+            *crate::search::verif::TRACE.lock().unwrap() = Some(Vec::new());
+            let mut limits = SearchLimits::new().nodes(nodes);
+            if limit_depth {
+                limits = limits.depth(depth);
+            }
+            let mut search = Search::new(&board, Some(limits));
+            let r = catch_unwind(AssertUnwindSafe(|| {
+                search.search(&SimpleEvaluator, depth);
+            }));
+            let trace = crate::search::verif::TRACE.lock().unwrap().take().unwrap_or_default();
+            crate::search::verif::CACHE_OFF.store(false, std::sync::atomic::Ordering::Relaxed);
+            let (bm, bs, n, sd) = search.verif_result();
+            let writes: Vec<String> = trace
+                .iter()
+                .map(|w| {
+                    format!(
+                        "[{},{},{},{},{},{},{},{}]",
+                        w.0,
+                        w.1,
+                        w.2,
+                        w.3,
+                        enc_ply(&w.4),
+                        w.5,
+                        w.6.map_or(-1i128, |x| i128::from(x)),
+                        u8::from(w.7)
+                    )
+                })
+                .collect();
+            println!(
+                "RESULT {{\"panic\":{},\"spec\":\"{}\",\"best\":{},\"score\":{},\"nodes\":{},\"seldepth\":{},\"writes\":[{}]}}",
+                r.is_err(),
+                spec,
+                bm.map_or("null".to_string(), |p| enc_ply(&p)),
+                bs.map_or("null".to_string(), |x| x.to_string()),
+                n,
+                sd,
+                writes.join(",")
+            );
+        }
+        println!("END {k}");
+        k += 1;
+    }
+}
+
 pub fn main(args: &[String]) {
     // keep panics quiet: they are reported as outcomes
     std::panic::set_hook(Box::new(|_| {}));
@@ -365,6 +538,10 @@ pub fn main(args: &[String]) {
         "sliders" => cmd_sliders(),
         "occ" => cmd_occ(),
         "walk" => cmd_walk(&args[1..]),
+        "fen" => cmd_fen(),
+        "eval" => cmd_eval(),
+        "parse" => cmd_parse(),
+        "search" => cmd_search(),
         "randwalk" => cmd_randwalk(&args[1..]),
         _ => {
             eprintln!("unknown verif command: {cmd}");
